@@ -131,6 +131,14 @@ var $methodVal = (recv, name) => {
     return f;
 };
 
+// Returns a method value for a method with a value receiver of struct type: the receiver was copied when the method
+// value was made, and every call works on its own copy of it (the method may assign to its receiver).
+var $methodValCopy = (recv, name, typ) => {
+    return function(...args) {
+        return $clone(recv, typ)[name](...args);
+    };
+};
+
 var $methodExpr = (typ, name) => {
     var method = typ.prototype[name];
     if (method.$expr === undefined) {
